@@ -236,6 +236,16 @@ def _shutdown(ctx: Ctx, c: Collector) -> None:
         late = [e for e in s.of_kind("raise") if e.idx < cl.idx and not e.iters]
         if late:
             pr.append("an error is re-raised before the loop is closed")
+        # pending callbacks (cancelled tasks finishing) get one loop iteration before close()
+        stop = [e for e in s.of_kind("call") if e.term == call(("attr", loop, "stop"))]
+        forever = [e for e in s.of_kind("call") if e.term == call(("attr", loop, "run_forever"))]
+        if not stop or not forever or not (stops[0].idx < stop[0].idx < forever[0].idx < cl.idx) or stop[0].guards != cl.guards or forever[0].guards != cl.guards:
+            pr.append("the loop is closed without loop.stop(); loop.run_forever() first: callbacks of tasks that were just cancelled never run (pending work is destroyed with the loop)")
+        # errors of single simulators are reported after the cleanup, not swallowed
+        hs2 = [e for e in s.events if e.tries and e.tries[-1][1] == "handler" and e.kind == "call" and e.term[1][0] == "attr" and e.term[1][2] == "append"]
+        rr = [e for e in s.of_kind("raise") if e.idx > cl.idx]
+        if hs2 and (not rr or not rr[0].guards or rr[0].guards[:-1] != cl.guards):
+            pr.append("errors collected while stopping the simulators are not re-raised after the cleanup")
     c.add("R15", SHUTDOWN, "stop every simulator (isolated), then close the loop, once", VIOLATED if pr else DISCHARGED, "; ".join(pr), fi.loc)
 
 
